@@ -473,6 +473,8 @@ pub fn property() -> Property {
             Box::new(Part(Values)),
             Box::new(Part(HistoryUpdates)),
             Box::new(Part(crate::props::c09b::Builder)),
+            Box::new(Part(crate::props::c09c::IdMaps)),
+            Box::new(Part(crate::props::c09c::Links)),
             Box::new(ExhaustivePart { name: "yjs-dataset", f: yjs_dataset }),
         ],
     }
